@@ -58,6 +58,15 @@ CHECKS = {
             'gevent loop replaced by the virtual-time loop; exact clock; 0.01 s resolution checked with 1 ms tolerance',
             'Hypothesis op-list state machine vs reference schedule on a virtual gevent clock',
             '5/C10', 'simkernel'),
+    'C11': ('exploration',
+            'Generated histories against the real thriftmux and Kafka multiplexed transports with an adversarial peer '
+            '(out-of-order, duplicate, unknown-tag and reserved-tag replies, timeouts before and after transmission with the '
+            'send loop held by a gate, re-opens); tags are decoded from the frames the peer receives and checked for range, '
+            'uniqueness among unanswered requests, reserved tags, and bounded consumption (max tag <= 1 + peak allocation). '
+            'TagPool alone to exhaustion for small max_tag; thorough drains the real 2^24-1 pool once.',
+            'forged replies name only reserved / never-allocated / already answered tags; sendall atomic; gate holds a frame before any byte',
+            'Hypothesis op-list state machine with adversarial peer; tags decoded by independent codecs',
+            '5/C11', 'simnet'),
     'C13': ('exploration',
             'Generated calls with drawn client ids, public message properties, deadlines and reply behaviours go through the '
             'real ThriftMux sink chain on the simulated socket; every frame the peer receives is decoded by an independent mux '
